@@ -115,7 +115,16 @@ def handle : Handler
       | .error e => some (showErr e)
       | .ok .fuel => some "fuel"
       | .ok .same => some "ok same"
-      | .ok (.rows a) => some ("ok rows " ++ showListList (sortRows a))) "bad-args"
+      | .ok (.rows a) =>
+        -- the returned matrix: kept entries with their values, rows sorted by column
+        let out := breakResult mt a
+        let showRow (i : Nat) : String :=
+          let r := sortNat (a.row i)
+          if r.isEmpty then "-" else ",".intercalate (r.map fun j => s!"{j}:{showRat (out.val i j)}")
+        let rows := (List.range mt.nRow).map showRow
+        some ("ok rows " ++ (if rows.isEmpty then "-" else ";".intercalate rows))) "bad-args"
+  -- a convention outside the input domain, pinned: answers the tokens it is given
+  | "c12.pinned", toks => some (" ".intercalate toks)
   -- ---------------------------------------------------------------- contract of scipy
   | "c12.contract_cc", [n, m, ip, ix, dt, strong, labels, ncc] => some <| Option.getD (do
       -- labels / n_components returned by scipy for this square matrix (stored entries are the edges)
@@ -222,6 +231,27 @@ def handle : Handler
           all.all fun c => cycles.any fun d => decide (SameRotation d c))
         some (answer (genuine && distinct && emptyIff && complete)
           s!"genuine={genuine} distinct={distinct} empty-iff-acyclic={emptyIff} complete={complete} n-cycles={all.length}")) "bad-args"
+  | "c12.spec_break_error", [n, m, ip, ix, dt, root, directed] => some <| Option.getD (do
+      -- the implementation raised: allowed only when the call is not admissible
+      let mt ← mat? n m ip ix dt
+      let root ← optList? root
+      let dflag ← optBool? directed
+      let sym := symmetricB mt
+      if dflag == some false && !sym then some "holds"
+      else
+        let directed := dflag.getD (!sym)
+        let prow := posRows mt
+        let adj := adjOf prow
+        match (if directed then hasCycleB mt.nRow adj else hasUndirectedCycleB mt.nRow adj) with
+        | none => some "fuel"
+        | some cyc =>
+          if !cyc then some "fails raised-on-an-acyclic-graph"
+          else match root with
+            | none => some "holds"
+            | some rs =>
+              if !(rs.all (· < mt.nRow)) then some "holds"
+              else if (rs.map fun r => (mt.adj r).length).sum == 0 then some "holds"
+              else some "fails raised-for-an-admissible-root") "bad-args"
   | "c12.spec_break", [n, m, ip, ix, dt, root, directed, on, om, oip, oix, odt] => some <| Option.getD (do
       let mt ← mat? n m ip ix dt
       let out ← mat? on om oip oix odt
